@@ -171,3 +171,28 @@ Example ex_observation :
   /\ map o_child_count (run_obs (sheet_strip ex_sheet) [ {| s_axis := AxDescendantOrSelf; s_test := TAnyElem; s_pred := PAll |} ] ex_doc) = [4; 1; 1]
   /\ map o_child_count (run_obs no_strip [ {| s_axis := AxDescendantOrSelf; s_test := TAnyElem; s_pred := PAll |} ] ex_doc) = [4; 3; 1].
 Proof. repeat split; reflexivity. Qed.
+
+(* ---- xsl:number level="any" with a from pattern is not strip-independent (known finding K-C13-2) ----------- *)
+(* <d><b><b>WS</b></b><c/></d>, strip-space elements="b", current node c, count="node()" from="b":
+   the walk of the code gives 1 on the original and 2 on the physically stripped document *)
+Definition ex_walk : list wnode :=
+  [ {| w_depth := 1; w_from := false; w_count := true; w_stripped := false |};    (* c *)
+    {| w_depth := 3; w_from := false; w_count := false; w_stripped := true |};    (* the stripped text *)
+    {| w_depth := 2; w_from := true; w_count := true; w_stripped := false |};     (* inner b *)
+    {| w_depth := 1; w_from := true; w_count := true; w_stripped := false |};     (* outer b *)
+    {| w_depth := 0; w_from := false; w_count := true; w_stripped := false |} ].  (* d *)
+
+Theorem number_any_strip_refuted :
+  exists l, walk_ok l /\ number_any (walk_strip l) <> number_any l.
+Proof.
+  exists ex_walk. split.
+  - intros x Hx S. cbn in Hx. repeat (destruct Hx as [<-|Hx]; [cbn in S; try discriminate; split; reflexivity|]). destruct Hx.
+  - vm_compute. discriminate.
+Qed.
+Print Assumptions number_any_strip_refuted.
+
+(* exact guard used by the generators: no from pattern *)
+Theorem number_any_strip_partial : forall l, walk_ok l -> (forall x, In x l -> w_from x = false) ->
+  number_any (walk_strip l) = number_any l.
+Proof. exact number_any_strip_partial_lemma. Qed.
+Print Assumptions number_any_strip_partial.
